@@ -608,7 +608,7 @@ func concurrentPhase(w *World, c Case) (viol *Violation) {
 					continue
 				}
 				w.ev["keyonly_reads_checked"]++
-				if rg, hit := lz.hits(rec.Off, rec.Len); hit {
+				if rg, hit := lz.hits(rec.Off, rec.Len+rec.Rep); hit {
 					return fail("value-read-by-key-only-op", "reader %d %s (key-only) read file bytes [%d,%d), which intersect the value bytes [%d,%d) of a stored item",
 						r.worker, r.op.String(), rec.Off, rec.Off+int64(rec.Len), rg[0], rg[1])
 				}
